@@ -309,7 +309,12 @@ def gen_history(rng: Any, seed: int) -> dict:
         te = _dy(rng, te + 0.5, te + rng.choice([4.0, 12.0, 30.0]))
     if rng.random() < 0.4:
         tl.append([_dy(rng, 3.0, end - 2), "create", "b", {"spec": {"x": 100}}])
-    delivery = {nm: rng.choice([0, 0, 0, 1 / 64, 4 / 64, 0.25, 1.0]) for nm in names}
+    delivery = {nm: rng.choice([0, 0, 0, 1 / 64, 4 / 64, 0.25, 0.5]) for nm in names}
+    if rng.random() < 0.12:
+        # the late-delivery regime: some operator sees peering events later than another one's keep-alive margin
+        victim, slow = rng.sample(names, 2)
+        ops[victim]["lifetime"] = rng.choice([2, 3])
+        delivery[slow] = float(min(5, ops[victim]["lifetime"] - 1))
     return {"seed": seed, "peering": rng.choice(["default", "verif-peers"]), "ops": ops, "pre_status": pre,
             "objects": [{"name": "a", "body": {"spec": {"x": 0}}}], "timeline": sorted(tl, key=lambda e: e[0]),
             "delivery": delivery, "end": end}
@@ -325,7 +330,14 @@ class Hist:
         self.ph = tr["peering_history"]
         self.ph_t = [h["t"] for h in self.ph]
         self.incs = tr["incs"]
-        self.W = max([0.0] + [float(v) for v in (sc.get("delivery") or {}).values()]) + 1.0
+        self.dmax = max([0.0] + [float(v) for v in (sc.get("delivery") or {}).values()])
+        self.W = self.dmax + 1.0
+        margins = [min(5, int(o.get("lifetime", 60)) - 1) for o in sc["ops"].values()]
+        # peering events may arrive later than the keep-alive margin of some operator: stale views look dead
+        self.late = self.dmax + 4 * LAT >= min(margins)
+        self.t_fail: dict[int, float] = {}
+        for g in tr.get("guard_failures", []):
+            self.t_fail.setdefault(g["inc"], g["t"])
         # pause function per incarnation
         self.pz: dict[int, list[tuple[float, bool]]] = {}
         self.made: dict[int, float] = {}
@@ -359,9 +371,12 @@ class Hist:
                 break
         return out
 
+    def end_of(self, i: dict) -> float:
+        """Until when the incarnation counts as a running operator."""
+        return min(x for x in [i["t_killed"], i["t_stop_req"], self.t_fail.get(i["inc"]), self.t_end] if x is not None)
+
     def running(self, i: dict, t: float) -> bool:
-        return (i["t_start"] <= t and (i["t_killed"] is None or t < i["t_killed"])
-                and (i["t_stop_req"] is None or t < i["t_stop_req"]))
+        return i["t_start"] <= t < self.end_of(i)
 
     @staticmethod
     def deadline(rec: dict) -> float | None:
@@ -394,7 +409,7 @@ class Hist:
         return sorted(set(pts))
 
 
-def oracle_history(ctx: Ctx, sc: dict, tr: dict) -> dict:
+def oracle_history(ctx: Ctx, sc: dict, tr: dict, full: bool = False) -> dict:
     """From the property statement, over implementation-level observations (toggle transitions, request log,
     handler calls, the stored versions of the peering object); never consults the Lean model."""
     H = Hist(sc, tr)
@@ -406,6 +421,15 @@ def oracle_history(ctx: Ctx, sc: dict, tr: dict) -> dict:
 
     incs = H.incs
     by_inc = {i["inc"]: i for i in incs}
+    timely = full or not H.late
+    stats["late_regime"] = int(H.late)
+
+    # ---- (X) no task of a running operator fails on its own --------------------------------------------------------
+    for g in tr.get("guard_failures", []):
+        i = by_inc.get(g["inc"])
+        ctx.oracle_fail(f"task '{g['task']}' of operator {i['name'] if i else g['inc']} failed at {g['t']} with {g['exc']}: {g['msg']} "
+                        f"(in {g['site']}); the operator stops working",
+                        {"scenario": sc, "failure": g}, {"site": g["site"], "shape": f"task '{g['task']}' failed with {g['exc']}"})
     pcalls_by_inc: dict[int, list[dict]] = {}
     for p in tr["pcalls"]:
         pcalls_by_inc.setdefault(p["inc"], []).append(p)
@@ -456,12 +480,12 @@ def oracle_history(ctx: Ctx, sc: dict, tr: dict) -> dict:
                      "stable window: not exactly the top-priority operator active", t=tc)
 
     # ---- (B) settling: W after the last change of who is live, everybody holds the right verdict ------------------
-    for i in incs:
+    for i in incs if timely else []:
         made = H.made.get(i["inc"])
         if made is None:
             continue
         t_from = made
-        t_to = min(x for x in [i["t_killed"], i["t_stop_req"], H.t_end] if x is not None)
+        t_to = H.end_of(i)
         for tc in checkpoints:
             if not (t_from + H.W < tc < t_to):
                 continue
@@ -485,15 +509,15 @@ def oracle_history(ctx: Ctx, sc: dict, tr: dict) -> dict:
 
     # ---- (C) renewal: a running operator's record is there and fresh all the time ---------------------------------
     for i in incs:
-        if i["lifetime"] < 2:
+        if i["lifetime"] < 2 and not full:
             continue
-        t_to = min(x for x in [i["t_killed"], i["t_stop_req"], H.t_end] if x is not None)
+        t_to = H.end_of(i)
         first = None
-        for h in H.ph:
+        for k0, h in enumerate(H.ph):
             r = (h["status"] or {}).get(i["identity"])
             if h["t"] >= i["t_start"] and r is not None and r.get("lastseen") is not None \
                     and (_parse_ls_independent(r["lastseen"]) or -1) >= i["t_start"]:
-                first = h["t"]
+                first = k0
                 break
         if first is None:
             if t_to - i["t_start"] > 1.0:
@@ -501,13 +525,26 @@ def oracle_history(ctx: Ctx, sc: dict, tr: dict) -> dict:
                      "renewal: record never written", inc=i["inc"])
             continue
         for k, h in enumerate(H.ph):
-            if h["t"] < first or h["t"] >= t_to:
+            if k < first or h["t"] >= t_to:
                 continue
             seg_end = min(H.ph[k + 1]["t"] if k + 1 < len(H.ph) else H.t_end, t_to)
             r = (h["status"] or {}).get(i["identity"])
             if r is None:
-                fail(f"the record of running operator {i['name']} is absent from the peering object during [{h['t']}, {seg_end})",
-                     "renewal: record of a running operator absent", inc=i["inc"], t=h["t"])
+                prev = (H.ph[k - 1]["status"] or {}).get(i["identity"]) if k > 0 else None
+                killer = [q for q in tr["requests"] if q["res"] == "peering" and q["method"] == "PATCH"
+                          and q.get("response") == 200 and abs(q["t"] + LAT - h["t"]) < 1e-9
+                          and i["identity"] in ((q.get("payload") or {}).get("status") or {})
+                          and ((q.get("payload") or {}).get("status") or {})[i["identity"]] is None]
+                if killer and prev is not None and H.live(prev, h["t"]):
+                    ctx.oracle_fail(f"the fresh record of running operator {i['name']} (lastseen {prev.get('lastseen')}, lifetime "
+                                    f"{prev.get('lifetime')}) was deleted at {h['t']} by {'itself' if killer[0]['who'] == i['who'] else killer[0]['who']}"
+                                    f", which judged it dead from an older view",
+                                    {"scenario": sc, "inc": i["inc"], "t": h["t"]},
+                                    {"site": "peering.clean", "shape": "fresh record of a running operator deleted by a peer",
+                                     "regime": "late-delivery" if H.late else "timely"})
+                else:
+                    fail(f"the record of running operator {i['name']} is absent from the peering object during [{h['t']}, {seg_end})",
+                         "renewal: record of a running operator absent", inc=i["inc"], t=h["t"])
                 break
             d = H.deadline(r)
             if d is not None and d <= seg_end and not (d == seg_end and seg_end == t_to):
@@ -528,12 +565,22 @@ def oracle_history(ctx: Ctx, sc: dict, tr: dict) -> dict:
         if not others:
             stats["withdrawals"] += 1
             if i["identity"] in st:
-                fail(f"operator {i['name']} exited gracefully at {i['t_stopped']} but its record is still in the peering object",
-                     "withdrawal: record left behind by a graceful exit", inc=i["inc"])
+                mine = [q for q in tr["requests"] if q["res"] == "peering" and q["method"] == "PATCH" and q["who"] == i["who"]
+                        and q.get("response") == 200 and q["t"] >= i["t_stop_req"]
+                        and i["identity"] in ((q.get("payload") or {}).get("status") or {})]
+                vals = [q["payload"]["status"][i["identity"]] for q in mine]
+                if None in vals and any(v is not None for v in vals[vals.index(None) + 1:]):
+                    ctx.oracle_fail(f"operator {i['name']} withdrew its record on exit, then a sleeping process_peering_event woke up and "
+                                    f"touched it back; the record outlives the operator (gone at {i['t_stopped']})",
+                                    {"scenario": sc, "inc": i["inc"]},
+                                    {"site": "peering.process_peering_event", "shape": "record re-added by a late self-touch after the withdrawal"})
+                else:
+                    fail(f"operator {i['name']} exited gracefully at {i['t_stopped']} but its record is still in the peering object",
+                         "withdrawal: record left behind by a graceful exit", inc=i["inc"])
 
     # ---- (E) dead records of others get cleaned ----------------------------------------------------------------------
     seen_rec: set[tuple] = set()
-    for k, h in enumerate(H.ph):
+    for k, h in enumerate(H.ph if timely else []):
         for ident, r in (h["status"] or {}).items():
             key = (ident, json.dumps(r, sort_keys=True))
             if key in seen_rec:
@@ -549,7 +596,7 @@ def oracle_history(ctx: Ctx, sc: dict, tr: dict) -> dict:
                 if i["inc"] not in H.made or i["lifetime"] < 1:
                     continue
                 bound = max(1, i["lifetime"] - 5) + 4 * LAT + H.W
-                t_to = min(x for x in [i["t_killed"], i["t_stop_req"], H.t_end] if x is not None)
+                t_to = H.end_of(i)
                 if H.made[i["inc"]] + 1.0 <= t_dead and t_dead + bound < t_to:
                     best = bound if best is None else min(best, bound)
             if best is None:
@@ -586,7 +633,7 @@ def oracle_history(ctx: Ctx, sc: dict, tr: dict) -> dict:
         made = H.made.get(i["inc"])
         if made is None:
             continue
-        t_to = min(x for x in [i["t_killed"], i["t_stop_req"], H.t_end] if x is not None)
+        t_to = H.end_of(i)
         # maximal paused intervals (p0, p1)
         intervals: list[tuple[float, float]] = []
         cur = None
@@ -658,44 +705,37 @@ def oracle_history(ctx: Ctx, sc: dict, tr: dict) -> dict:
             seen[key] = c["t"]
 
     # ---- (G) a change made in a quiet period is handled exactly once, by the active operator ---------------------------
-    for e in sc["timeline"]:
+    Wg = H.W + 1.0
+    moments = sorted([x for i in incs for x in (i["t_start"], i["t_stop_req"], i["t_stopped"], i["t_killed"], H.t_fail.get(i["inc"]))
+                      if x is not None] + [g["t"] for g in tr["toggles"] if g["set"] == "any"])
+    any_kill = any(i["t_killed"] is not None for i in incs) or bool(H.t_fail)
+    for e in sc["timeline"] if timely else []:
         if e[1] != "edit":
             continue
-        te, xv = e[0], e[3]["spec"]["x"]
-        if te + H.W + 1 >= H.t_end:
+        te, name, xv = e[0], e[2], e[3]["spec"]["x"]
+        if te - Wg < 0 or te + Wg >= H.t_end:
             continue
-        quiet = True
-        actives = []
-        for i in incs:
-            if i["t_start"] > te + H.W + 1 or not (i["t_start"] + H.W + 1 < te):
-                if i["t_start"] <= te + H.W + 1 and not (i["t_killed"] is not None and i["t_killed"] < te - H.W - 1) \
-                        and not (i["t_stopped"] is not None and i["t_stopped"] < te - H.W - 1):
-                    quiet = False
-                continue
-            t_to = min(x for x in [i["t_killed"], i["t_stop_req"], H.t_end] if x is not None)
-            if t_to < te - H.W - 1 and (i["t_stopped"] is None or i["t_stopped"] < te - H.W - 1):
-                continue
-            if not (t_to > te + H.W + 1):
-                quiet = False
-                continue
-            vals = {H.paused_at(i["inc"], p) for p in [te - H.W, te, te + H.W]}
-            flips = [t for (t, _v) in H.pz.get(i["inc"], []) if te - H.W <= t <= te + H.W]
-            if len(vals) != 1 or flips:
-                quiet = False
-            elif vals == {False}:
-                actives.append(i)
-        later = [e2 for e2 in sc["timeline"] if e2[1] == "edit" and e2[2] == e[2] and te < e2[0] <= te + H.W + 1]
-        if not quiet or later:
+        lo = bisect.bisect_left(moments, te - Wg)
+        if lo < len(moments) and moments[lo] <= te + Wg:
+            continue            # something about who runs / who is paused moved near the edit
+        if any(e2[1] == "edit" and e2[2] == name and te < e2[0] <= te + Wg for e2 in sc["timeline"]):
             continue
-        n_calls = [c for c in tr["calls"] if c["kind"] == "update" and c["name"] == e[2] and c["x"] == xv]
+        present = [i for i in incs if i["inc"] in H.made and i["t_start"] < te - Wg and H.end_of(i) > te + Wg]
+        actives = [i for i in present if H.paused_at(i["inc"], te) is False]
+        calls = [c for c in tr["calls"] if c["kind"] == "update" and c["name"] == name and c["x"] == xv]
+        near = [c for c in calls if te <= c["t"] <= te + Wg]
+        stats["quiet_edits"] = stats.get("quiet_edits", 0) + 1
         if len(actives) == 1:
-            mine = [c for c in n_calls if c["inc"] == actives[0]["inc"] and te <= c["t"] <= te + H.W + 1]
+            mine = [c for c in near if c["inc"] == actives[0]["inc"]]
             if len(mine) != 1:
                 fail(f"edit x={xv} at {te}: the only active operator {actives[0]['name']} ran the update handler {len(mine)} times",
                      "quiet edit not handled exactly once by the active operator", t=te)
-            elif len(n_calls) != 1 and not any(i["t_killed"] is not None for i in incs):
-                fail(f"edit x={xv} at {te} (quiet period, one active operator) was handled {len(n_calls)} times: "
-                     f"{[(c['op'], c['t']) for c in n_calls]}", "quiet edit handled more than once", t=te)
+            elif len(calls) != 1 and not any_kill:
+                fail(f"edit x={xv} at {te} (quiet period, one active operator) was handled {len(calls)} times: "
+                     f"{[(c['op'], c['t']) for c in calls]}", "quiet edit handled more than once", t=te)
+        elif not actives and near:
+            fail(f"edit x={xv} at {te}: every running operator is paused, yet {[(c['op'], c['t']) for c in near]} handled it",
+                 "quiet edit handled although every operator is paused", t=te)
     return stats
 
 
@@ -877,12 +917,13 @@ def run_witness(ctx: Ctx, name: str, d: dict) -> None:
     code): the failure is reported with the finding's signature, so `known_findings.jsonl` decides how it is printed."""
     tr = _run_pool([d["scenario"]], wall=60.0)[0]["trace"]
     sub = Ctx(ctx.prop, ctx.tier, ctx.seed)
-    oracle_history(sub, d["scenario"], tr)
+    oracle_history(sub, d["scenario"], tr, full=True)
     hits = [f for f in sub.failures if f.kind == "oracle" and (f.signature or {}).get("shape") == d["expect"]["shape"]]
     ctx.count("witness", f"{name}:{'reproduced' if hits else 'not-reproduced'}")
     if hits:
         ctx.oracle_fail(hits[0].what, {"scenario": d["scenario"], "witness": name}, d["expect"]["signature"])
-    other = [f for f in sub.failures if f.kind == "oracle" and f not in hits and (f.signature or {}).get("shape") not in d["expect"].get("also", [])]
+    also = d["expect"].get("also", [])
+    other = [f for f in sub.failures if f.kind == "oracle" and f not in hits and also != "*" and (f.signature or {}).get("shape") not in also]
     for f in other[:3]:
         ctx.oracle_fail(f.what, f.replay, f.signature)
 
